@@ -90,8 +90,14 @@
 
   GHOST state (never read by a transition that decides control flow or shared memory; `used` only restricts the
   client: an item is enqueued at most once, the contract of an intrusive container): a logical clock `now` ticking at
-  every action, invocation times, the time and place of every successful enqueue CAS, the time of every successful
-  marking CAS, blind counters of both, the lock holder.
+  every action, invocation times (`tInv` per item, `tCall` per thread), the enqueuing thread of an item (`owner`), the
+  number of segments allocated when the enqueue was invoked (`floorN`), the time and place of every successful enqueue
+  CAS (`tCas`, `posS`, `posI`), the time of every successful marking CAS (`tMark`), blind counters of both (`enqCnt`,
+  `deqCnt`), the lock holder (`holder`).
+
+  FILTERED OUT of the trace before replay (tools/segq_pre.py, `relevant` in Main.lean): hazard-pointer stores and the
+  thread's HP bookkeeping (unnamed locations), the item counter `count`, the constructor stores of a new segment and
+  fences.  The lock `segLock` is NOT filtered: it is modelled step by step.
 -/
 import CdsVerif.Base.Machine
 namespace CdsVerif.Algo.Segmented
@@ -147,6 +153,7 @@ structure St where
   holder : Option Tid            -- who is inside a critical section of m_Lock
   now : Nat                      -- logical clock
   used : Nat → Bool              -- item handed to enqueue
+  owner : Nat → Tid              --   … by this thread
   tInv : Nat → Nat               -- invocation time of the item's enqueue
   floorN : Nat → Nat             -- `nseg` at that time
   enqCnt : Nat → Nat             -- successful enqueue CASes of the item (blind counter)
@@ -159,7 +166,7 @@ structure St where
 
 def init (K : Nat) : St :=
   { K := K, head := none, tail := none, lock := false, lo := 0, nseg := 0, cell := fun _ _ => .null,
-    pc := fun _ => .idle, holder := none, now := 0, used := fun _ => false, tInv := fun _ => 0,
+    pc := fun _ => .idle, holder := none, now := 0, used := fun _ => false, owner := fun _ => 0, tInv := fun _ => 0,
     floorN := fun _ => 0, enqCnt := fun _ => 0, posS := fun _ => 0, posI := fun _ => 0, tCas := fun _ => none,
     deqCnt := fun _ => 0, tMark := fun _ => none, tCall := fun _ => 0 }
 
@@ -211,7 +218,7 @@ def invoke (s : St) (t : Tid) (op : GOp) : Option St :=
   | .idle, "enq", v :: ps =>
     if 0 ≤ v ∧ s.used v.toNat = false then
       some { s with pc := upd s.pc t (.enqLd1 v.toNat (ps.map Int.toNat)), now := s.now + 1,
-                    used := upd s.used v.toNat true, tInv := upd s.tInv v.toNat s.now,
+                    used := upd s.used v.toNat true, owner := upd s.owner v.toNat t, tInv := upd s.tInv v.toNat s.now,
                     floorN := upd s.floorN v.toNat s.nseg, tCall := upd s.tCall t s.now }
     else none
   | .idle, "deq", ps =>
@@ -252,7 +259,7 @@ def step (s : St) (t : Tid) : Option (St × Ev) :=
       some ({ s with lock := true, holder := some t, pc := upd s.pc t (.ctIn x ps pt), now := s.now + 1 }, evXchg false)
   | .ctSpin x ps pt =>
     if s.lock then
-      some ({ s with now := s.now + 1 }, evLd lockLoc "1")
+      some ({ s with pc := upd s.pc t (.ctSpin x ps pt), now := s.now + 1 }, evLd lockLoc "1")
     else
       some ({ s with pc := upd s.pc t (.ctTry x ps pt), now := s.now + 1 }, evLd lockLoc "0")
   | .ctIn x ps pt =>
@@ -307,7 +314,7 @@ def step (s : St) (t : Tid) : Option (St × Ev) :=
       some ({ s with lock := true, holder := some t, pc := upd s.pc t (.rhIn ps g), now := s.now + 1 }, evXchg false)
   | .rhSpin ps g =>
     if s.lock then
-      some ({ s with now := s.now + 1 }, evLd lockLoc "1")
+      some ({ s with pc := upd s.pc t (.rhSpin ps g), now := s.now + 1 }, evLd lockLoc "1")
     else
       some ({ s with pc := upd s.pc t (.rhTry ps g), now := s.now + 1 }, evLd lockLoc "0")
   | .rhIn ps g =>
